@@ -52,6 +52,8 @@ pub struct HostCtx {
     h: usize,
     slots: Vec<Option<Obj>>,
     t0: tokio::time::Instant,
+    #[allow(clippy::type_complexity)]
+    ring: Option<(turmoil::io_uring::IoUring, turmoil::fs::shim::std::fs::File, Vec<Vec<u8>>, u64)>,
 }
 
 fn slot_of(tok: &str) -> usize {
@@ -66,7 +68,7 @@ fn drain_oracle() {
 
 impl HostCtx {
     pub fn new(h: usize) -> Self {
-        HostCtx { h, slots: Vec::new(), t0: tokio::time::Instant::now() }
+        HostCtx { h, slots: Vec::new(), t0: tokio::time::Instant::now(), ring: None }
     }
 
     fn put(&mut self, s: usize, o: Obj) {
@@ -392,6 +394,112 @@ impl HostCtx {
                     inst.as_nanos()
                 )
             }
+            "fs_mk" => {
+                use std::io::Write as _;
+                use turmoil::fs::shim::std::fs as sfs;
+                let path = format!("/{}", t[1]);
+                let r = (|| -> std::io::Result<()> {
+                    if let Some(dir) = std::path::Path::new(&path).parent() {
+                        if dir != std::path::Path::new("/") {
+                            sfs::create_dir_all(dir)?;
+                        }
+                    }
+                    let mut f = sfs::OpenOptions::new().write(true).create(true).truncate(true).open(&path)?;
+                    f.write_all(&unhex(t[2]))?;
+                    if t.get(3) == Some(&"sync") {
+                        f.sync_all()?;
+                    }
+                    Ok(())
+                })();
+                match r {
+                    Ok(()) => "ok".into(),
+                    Err(e) => format!("err {}", errkind(&e)),
+                }
+            }
+            "fs_ls" => {
+                // directory listing in the order the implementation returns it (not sorted)
+                use turmoil::fs::shim::std::fs as sfs;
+                let path = format!("/{}", if t.len() > 1 { t[1] } else { "" });
+                match sfs::read_dir(&path) {
+                    Ok(rd) => {
+                        let mut names = Vec::new();
+                        for e in rd {
+                            match e {
+                                Ok(e) => names.push(e.file_name().to_string_lossy().to_string()),
+                                Err(e) => names.push(format!("!{}", errkind(&e))),
+                            }
+                        }
+                        format!("ok {}", if names.is_empty() { "-".to_string() } else { names.join(",") })
+                    }
+                    Err(e) => format!("err {}", errkind(&e)),
+                }
+            }
+            "fs_cat" => {
+                use turmoil::fs::shim::std::fs as sfs;
+                match sfs::read(format!("/{}", t[1])) {
+                    Ok(b) => format!("ok {}", hex(&b)),
+                    Err(e) => format!("err {}", errkind(&e)),
+                }
+            }
+            "fs_rmall" => {
+                use turmoil::fs::shim::std::fs as sfs;
+                match sfs::remove_dir_all(format!("/{}", t[1])) {
+                    Ok(()) => "ok".into(),
+                    Err(e) => format!("err {}", errkind(&e)),
+                }
+            }
+            "fs_syncdir" => {
+                use turmoil::fs::shim::std::fs as sfs;
+                let path = format!("/{}", if t.len() > 1 { t[1] } else { "" });
+                let r = sfs::OpenOptions::new().read(true).open(&path).and_then(|d| d.sync_all());
+                match r {
+                    Ok(()) => "ok".into(),
+                    Err(e) => format!("err {}", errkind(&e)),
+                }
+            }
+            "uring_submit" => {
+                // submit n writes to one file through a ring kept in the host context
+                use std::os::fd::AsRawFd;
+                use turmoil::fs::shim::std::fs as sfs;
+                use turmoil::io_uring::{opcode, types, IoUring};
+                let n: usize = t[1].parse().unwrap();
+                let r = (|| -> std::io::Result<usize> {
+                    if self.ring.is_none() {
+                        let file = sfs::OpenOptions::new().read(true).write(true).create(true).open("/ring.dat")?;
+                        let ring = IoUring::new(32)?;
+                        self.ring = Some((ring, file, Vec::new(), 0));
+                    }
+                    let (ring, file, bufs, next) = self.ring.as_mut().unwrap();
+                    let fd = types::Fd(file.as_raw_fd());
+                    for _ in 0..n {
+                        *next += 1;
+                        bufs.push(vec![*next as u8; 4]);
+                        let b = bufs.last().unwrap();
+                        let e = opcode::Write::new(fd, b.as_ptr(), b.len() as u32).offset((*next * 4) as u64).build().user_data(*next);
+                        unsafe {
+                            ring.submission().push(&e).map_err(|_| std::io::Error::other("sq full"))?;
+                        }
+                    }
+                    ring.submit()
+                })();
+                match r {
+                    Ok(k) => format!("ok {k}"),
+                    Err(e) => format!("err {}", errkind(&e)),
+                }
+            }
+            "uring_drain" => match self.ring.as_mut() {
+                Some((ring, _, _, _)) => {
+                    let _ = ring.submit();
+                    let mut order = Vec::new();
+                    let mut cq = ring.completion();
+                    cq.sync();
+                    for cqe in cq {
+                        order.push(format!("{}:{}", cqe.user_data(), cqe.result()));
+                    }
+                    format!("ok {}", if order.is_empty() { "-".to_string() } else { order.join(",") })
+                }
+                None => "ok -".into(),
+            },
             "spawn_ticker" => {
                 // a background task with a destructor: proves that crash drops every task of the host
                 let h = self.h;
@@ -487,6 +595,10 @@ pub struct CaseCfg {
     pub tick_us: u64,
     /// hosts registered later with `reglate`
     pub late: usize,
+    /// fs knobs (percent / bytes; 0 = default)
+    pub fs_sync_pct: u64,
+    pub fs_block: u64,
+    pub random_order: bool,
     pub tick_ms: u64,
     pub hosts: usize,
     pub tcpcap: usize,
@@ -507,6 +619,9 @@ impl Default for CaseCfg {
         CaseCfg {
             tick_us: 0,
             late: 0,
+            fs_sync_pct: 0,
+            fs_block: 0,
+            random_order: false,
             tick_ms: 1,
             hosts: 2,
             tcpcap: 64,
@@ -527,8 +642,8 @@ impl Default for CaseCfg {
 impl CaseCfg {
     pub fn line(&self) -> String {
         format!(
-            "CFG tick_us={} late={} tick_ms={} hosts={} tcpcap={} udpcap={} ephlo={} ephhi={} ipv={} minlat_ms={} maxlat_ms={} fail={} repair={} rng_seed={} order={}",
-            self.tick_us, self.late, self.tick_ms, self.hosts, self.tcpcap, self.udpcap, self.ephlo, self.ephhi,
+            "CFG fs_sync_pct={} fs_block={} random_order={} tick_us={} late={} tick_ms={} hosts={} tcpcap={} udpcap={} ephlo={} ephhi={} ipv={} minlat_ms={} maxlat_ms={} fail={} repair={} rng_seed={} order={}",
+            self.fs_sync_pct, self.fs_block, self.random_order as u8, self.tick_us, self.late, self.tick_ms, self.hosts, self.tcpcap, self.udpcap, self.ephlo, self.ephhi,
             if self.v6 { 6 } else { 4 }, self.minlat_ms, self.maxlat_ms, self.fail, self.repair, self.rng_seed,
             if self.desc { "desc" } else { "asc" }
         )
@@ -541,6 +656,9 @@ impl CaseCfg {
                 "tick_ms" => c.tick_ms = v.parse().unwrap(),
                 "tick_us" => c.tick_us = v.parse().unwrap(),
                 "late" => c.late = v.parse().unwrap(),
+                "fs_sync_pct" => c.fs_sync_pct = v.parse().unwrap(),
+                "fs_block" => c.fs_block = v.parse().unwrap(),
+                "random_order" => c.random_order = v == "1",
                 "hosts" => c.hosts = v.parse().unwrap(),
                 "tcpcap" => c.tcpcap = v.parse().unwrap(),
                 "udpcap" => c.udpcap = v.parse().unwrap(),
@@ -594,6 +712,15 @@ impl<'a> Case<'a> {
             .simulation_duration(Duration::from_secs(3600 * 24));
         if cfg.v6 {
             b.ip_version(turmoil::IpVersion::V6);
+        }
+        if cfg.random_order {
+            b.enable_random_order();
+        }
+        if cfg.fs_sync_pct > 0 {
+            b.fs().sync_probability(cfg.fs_sync_pct as f64 / 100.0);
+        }
+        if cfg.fs_block > 0 {
+            b.fs().block_size(cfg.fs_block);
         }
         let mut sim = b.build();
         let total = cfg.hosts + cfg.late;
